@@ -6,7 +6,7 @@ open TTV.Run TTV.Spec.Run
 
 def isOutcomeEv : Ev → Bool
   | .outcome _ _ => true
-  | _ => false
+  | .startTestRun | .stopTestRun | .startTest | .stopTest | .stage _ | .onExc _ _ => false
 
 /-- result calls are exactly `startTest, <one outcome>, stopTest` (the stream flavour has no stopTest
 event; `result=None` adds the run bracket) -/
